@@ -4,7 +4,8 @@
 //
 // stdin, one run per line:
 //   run <P1|P2> <cutmode> <ecut> <seed> <slots> <capacity> <stack_factor>
-//       <kill_at_iter(-1=never)> <max_iters> <nprim> { pid E x y z dx dy dz evt }*
+//       <kill_at_iter(-1=never)> <max_iters> <track_order> <fixed_step_limiter>
+//       <nprim> { pid E x y z dx dy dz evt }*
 // stdout per run:
 //   BEGIN <echo>
 //   PART <id> <label> <mass> <anti>
@@ -168,6 +169,26 @@ class Collector final : public StepInterface
     GeoStore gstate_;
 };
 
+std::string nested_what(std::exception const& e)
+{
+    std::string m = e.what();
+    try
+    {
+        std::rethrow_if_nested(e);
+    }
+    catch (std::exception const& inner)
+    {
+        m += " <- " + nested_what(inner);
+    }
+    catch (...)
+    {
+    }
+    for (auto& c : m)
+        if (c == '\n')
+            c = ' ';
+    return m;
+}
+
 template<class P>
 void run_problem(P& prob,
                  std::vector<Primary> prims,
@@ -231,11 +252,7 @@ void run_problem(P& prob,
     }
     catch (std::exception const& e)
     {
-        std::string m = e.what();
-        for (auto& c : m)
-            if (c == '\n')
-                c = ' ';
-        std::cout << "EXC " << m << '\n';
+        std::cout << "EXC " << nested_what(e) << '\n';
     }
     {
         auto const& st = step.state_ref();
@@ -275,7 +292,9 @@ int main()
         cfg.ecut = verif::rd(is);
         is >> seed >> slots >> cfg.init_capacity;
         cfg.stack_factor = verif::rd(is);
-        is >> kill_at >> max_iters >> nprim;
+        is >> kill_at >> max_iters >> cfg.track_order;
+        cfg.fixed_limit = verif::rd(is);
+        is >> nprim;
         std::vector<Primary> prims(nprim);
         for (auto& p : prims)
         {
@@ -302,6 +321,16 @@ int main()
             else if (prob == "P2")
             {
                 verif::P2 p(cfg);
+                run_problem(p, prims, seed, slots, kill_at, max_iters);
+            }
+            else if (prob == "P3")
+            {
+                verif::P3 p(cfg);
+                run_problem(p, prims, seed, slots, kill_at, max_iters);
+            }
+            else if (prob == "P4")
+            {
+                verif::P4 p(cfg);
                 run_problem(p, prims, seed, slots, kill_at, max_iters);
             }
             else
